@@ -3,7 +3,8 @@ from contracts.tree import ALL_OF as _ALLOF, ParentSet, PropertyGroupAdd, Proper
 from contracts.removal import RemoveRecursively, RemoveDataFromGroups, WorkspaceRemoveChildren
 from contracts.histories import ApiHistories, KfRemoveThroughParent
 from contracts.removal import ObjectRemoveChildren as _ORC
-CONTRACTS = list(_H) + [ParentSet, PropertyGroupAdd, PropertyGroupRemove, RemoveRecursively, RemoveDataFromGroups, WorkspaceRemoveChildren, ApiHistories, KfRemoveThroughParent] + list(_ALLOF) + [_ORC]
+from contracts.copy_wf import CopiesKeepFilesValid
+CONTRACTS = list(_H) + [ParentSet, PropertyGroupAdd, PropertyGroupRemove, RemoveRecursively, RemoveDataFromGroups, WorkspaceRemoveChildren, ApiHistories, KfRemoveThroughParent] + list(_ALLOF) + [_ORC, CopiesKeepFilesValid]
 
 MANIFEST = {
     "category": "proof",
